@@ -133,7 +133,11 @@ def run(ctx):
                                    # and under caches so small that statements fill them with dirty pages: the refusal must reach
                                    # the statement (which is then abandoned), never be swallowed with the page handed out uncached
                                    [dict(seed=ctx.seed * 1000 + 950 + i, n=(200 if ctx.quick() else 500), caps=[], cache=k, pcrash=0, pflush=0, wal=False,
-                                         maxrows=30, bias="grow") for i, k in enumerate([6, 8] if ctx.quick() else [5, 6, 7, 8, 10])])
+                                         maxrows=30, bias="grow") for i, k in enumerate([6, 8] if ctx.quick() else [5, 6, 7, 8, 10])] +
+                                   # the same with three-cell pages: a long INSERT then allocates page after page (append) while every
+                                   # resident page is dirty, so the refusal - or the overflow - happens at an allocation, not at a fetch
+                                   [dict(seed=ctx.seed * 1000 + 970 + i, n=(150 if ctx.quick() else 400), caps=[3, 3], cache=k, pcrash=0, pflush=0, wal=False,
+                                         maxrows=30, bias="grow") for i, k in enumerate([10, 14] if ctx.quick() else [8, 10, 12, 14, 18])])
         cov["store_level_write_faults"] = dict(runs=agg["runs"], statements=agg["statements"], flushes=agg["flushes"],
                                                flushes_failed=agg.get("flushes_failed", 0), clean_pages_evicted_after=agg.get("evicted_after_failed_flush", 0),
                                                cache_full_statements=agg.get("cachefull_statements_restarted", 0))
